@@ -28,7 +28,40 @@ from .cfg import CFG, Node, FactDB, canon_fact, explore, node_effects
 from .model import AnalysisError, Repo
 
 STOP = object()
-_OKTYPES = (int, bool, str, bytes, type(None))
+UNKNOWN = "__vt_unknown__"  # env marker: a stipulated constant path was re-assigned on this path
+_OKTYPES = (int, bool, str, bytes, type(None), tuple)
+
+
+def xfold(e: ast.AST, env: Dict[str, object]):
+    """``q.fold`` extended with the size idioms ``sum(len(c) for c in X)`` /
+    ``sum(map(len, X))`` over a constant sequence X (replaced by their value first)."""
+    has_sum = any(isinstance(x, ast.Call) and isinstance(x.func, ast.Name) and x.func.id == "sum" for x in ast.walk(e))
+    if not has_sum:
+        return q.fold(e, env)
+    import copy
+
+    class T(ast.NodeTransformer):
+        def visit_Call(self, node):
+            self.generic_visit(node)
+            if isinstance(node.func, ast.Name) and node.func.id == "sum" and len(node.args) == 1 and not node.keywords:
+                a = node.args[0]
+                try:
+                    if isinstance(a, (ast.GeneratorExp, ast.ListComp)) and len(a.generators) == 1 and not a.generators[0].ifs and isinstance(a.generators[0].target, ast.Name):
+                        seq = q.fold(a.generators[0].iter, env)
+                        tot = 0
+                        for item in seq:
+                            env2 = dict(env)
+                            env2[a.generators[0].target.id] = item
+                            tot += q.fold(a.elt, env2)
+                        return ast.copy_location(ast.Constant(value=tot), node)
+                    if isinstance(a, ast.Call) and isinstance(a.func, ast.Name) and a.func.id == "map" and len(a.args) == 2 and isinstance(a.args[0], ast.Name) and a.args[0].id == "len":
+                        seq = q.fold(a.args[1], env)
+                        return ast.copy_location(ast.Constant(value=sum(len(x) for x in seq)), node)
+                except (q.NotFoldable, TypeError):
+                    pass
+            return node
+
+    return q.fold(T().visit(copy.deepcopy(e)), env)
 
 
 def class_consts(repo: Repo, relpath: str, clsname: str) -> Dict[str, object]:
@@ -112,6 +145,8 @@ def explore_consts(
     def full(env):
         d = dict(consts)
         d.update(env)
+        for k in [k for k, v in d.items() if v is UNKNOWN or v == UNKNOWN]:
+            del d[k]
         return d
 
     def transfer(n: Node, val):
@@ -127,7 +162,7 @@ def explore_consts(
             if isinstance(st, ast.Assign) and len(st.targets) == 1 and isinstance(st.targets[0], ast.Name):
                 name = st.targets[0].id
                 try:
-                    v = q.fold(st.value, full(env))
+                    v = xfold(st.value, full(env))
                     if isinstance(v, _OKTYPES):
                         env[name] = v
                     else:
@@ -138,7 +173,7 @@ def explore_consts(
             elif isinstance(st, ast.AnnAssign) and isinstance(st.target, ast.Name) and st.value is not None:
                 name = st.target.id
                 try:
-                    v = q.fold(st.value, full(env))
+                    v = xfold(st.value, full(env))
                     if isinstance(v, _OKTYPES):
                         env[name] = v
                     else:
@@ -149,7 +184,7 @@ def explore_consts(
             elif isinstance(st, ast.AugAssign) and isinstance(st.target, ast.Name):
                 name = st.target.id
                 try:
-                    v = q.fold(ast.BinOp(left=ast.Name(id=name, ctx=ast.Load()), op=st.op, right=st.value), full(env))
+                    v = xfold(ast.BinOp(left=ast.Name(id=name, ctx=ast.Load()), op=st.op, right=st.value), full(env))
                     if isinstance(v, _OKTYPES):
                         env[name] = v
                     else:
@@ -160,6 +195,20 @@ def explore_consts(
             if not done:
                 for p in _assigned(n):
                     env.pop(p, None)
+            # a stipulated constant attribute that this statement re-assigns is no longer that constant
+            for p in _assigned(n):
+                if p in consts and "." in p:
+                    v = None
+                    if isinstance(st, ast.Assign) and len(st.targets) == 1 and q.dotted(st.targets[0]) == p:
+                        try:
+                            v = xfold(st.value, full(env))
+                        except q.NotFoldable:
+                            v = UNKNOWN
+                        if not isinstance(v, _OKTYPES):
+                            v = UNKNOWN
+                    else:
+                        v = UNKNOWN
+                    env[p] = v
         elif n.kind in ("for", "with"):
             for p in _assigned(n):
                 env.pop(p, None)
@@ -179,7 +228,7 @@ def explore_consts(
         if n.kind == "test" and kind in ("true", "false"):
             env = full(dict(env_t))
             try:
-                r = q.fold(n.ast, env)
+                r = xfold(n.ast, env)
                 if bool(r) != (kind == "true"):
                     return None
             except q.NotFoldable:
@@ -233,7 +282,7 @@ def states_at(seen, node: Node) -> List[Tuple[Dict[str, object], object]]:
 
 def fold_in(e: ast.AST, env: Dict[str, object], default=None):
     try:
-        return q.fold(e, env)
+        return xfold(e, env)
     except q.NotFoldable:
         return default
 
@@ -290,8 +339,8 @@ SOP = "self._fragmented_message_opcode"
 FC = "self._frame_compressed"
 MSG_STATE = (FC, BUF, SOP)
 
-FrameState = namedtuple("FrameState", "tags buf sop fc aborted handled preads plen closed")
-FRAME_INIT = FrameState((), "untouched", None, None, False, 0, 0, None, ())
+FrameState = namedtuple("FrameState", "tags buf sop fc aborted handled preads plen closed hreads")
+FRAME_INIT = FrameState((), "untouched", None, None, False, 0, 0, None, (), ())
 
 
 def _tag_get(tags, path):
@@ -346,6 +395,9 @@ def frame_transfer(read_fn: str = "self._read_bytes", mask_fn: str = "_websocket
             return "badmask"
         if isinstance(e, ast.Call) and q.call_name(e) in ("bytes", "bytearray") and len(e.args) == 1 and q.dotted(e.args[0]) == BUF:
             return "assembled" if u.buf == "extended" else "stale"
+        # list-of-chunks representation: b"".join(buffer)
+        if isinstance(e, ast.Call) and isinstance(e.func, ast.Attribute) and e.func.attr == "join" and isinstance(e.func.value, ast.Constant) and e.func.value.value == b"" and len(e.args) == 1 and q.dotted(e.args[0]) == BUF:
+            return "assembled" if u.buf == "extended" else "stale"
         d = q.dotted(e) if isinstance(e, (ast.Name, ast.Attribute)) else None
         if d == SOP:
             return "saved-opcode"
@@ -369,6 +421,8 @@ def frame_transfer(read_fn: str = "self._read_bytes", mask_fn: str = "_websocket
         for c in calls_in_node(n, "self._handle_message"):
             u = u._replace(handled=min(u.handled + 1, 2))
         for c in calls_in_node(n, read_fn):
+            if len(c.args) == 1 and isinstance(c.args[0], ast.Constant) and type(c.args[0].value) is int and len(u.hreads) < 6:
+                u = u._replace(hreads=u.hreads + (c.args[0].value,))
             if len(c.args) == 1 and not isinstance(c.args[0], ast.Constant):
                 a = c.args[0]
                 v = fold_in(a, env, None)
@@ -377,10 +431,14 @@ def frame_transfer(read_fn: str = "self._read_bytes", mask_fn: str = "_websocket
                 u = u._replace(preads=min(u.preads + 1, 2), plen=v)
         # mutating calls on the reassembly buffer
         for c in [x for x in node_calls_all(n) if isinstance(x.func, ast.Attribute) and q.dotted(x.func.value) == BUF]:
-            if c.func.attr == "extend" and len(c.args) == 1 and is_payloadish(_tag_get(u.tags, q.dotted(c.args[0]) or "?")) and u.buf == "untouched":
+            if c.func.attr in ("extend", "append") and len(c.args) == 1 and is_payloadish(_tag_get(u.tags, q.dotted(c.args[0]) or "?")) and u.buf == "untouched":
                 u = u._replace(buf="extended")
-            else:
+            elif c.func.attr in ("extend", "append", "insert", "appendleft", "clear", "pop", "popleft", "remove", "reverse"):
                 u = u._replace(buf="bad")
+            elif c.func.attr in ("copy", "decode", "count", "index", "hex", "startswith", "endswith", "__len__"):
+                pass
+            else:
+                u = u._replace(buf="unknown")
         if n.kind == "stmt" and isinstance(root, ast.Assign) and len(root.targets) == 1 and isinstance(root.targets[0], (ast.Tuple, ast.List)) and len(root.targets[0].elts) == 1 \
                 and isinstance(root.targets[0].elts[0], ast.Name) and q.is_call(root.value, "struct.unpack") and len(root.value.args) == 2 and isinstance(root.value.args[0], ast.Constant):
             # `(x,) = struct.unpack(fmt, y)` is the same as `x = struct.unpack(fmt, y)[0]`
@@ -406,8 +464,12 @@ def frame_transfer(read_fn: str = "self._read_bytes", mask_fn: str = "_websocket
                 if t == BUF:
                     if isinstance(val, ast.Constant) and val.value is None:
                         u = u._replace(buf="cleared" if u.buf == "extended" else ("dropped" if u.buf == "untouched" else "bad"))
-                    elif isinstance(val, ast.Call) and q.call_name(val) == "bytearray" and len(val.args) == 1 and is_payloadish(_tag_get(u.tags, q.dotted(val.args[0]) or "?")) and u.buf == "untouched":
+                    elif isinstance(val, ast.Call) and q.call_name(val) in ("bytearray", "bytes") and len(val.args) == 1 and is_payloadish(_tag_get(u.tags, q.dotted(val.args[0]) or "?")) and u.buf == "untouched":
                         u = u._replace(buf="new")
+                    elif isinstance(val, (ast.List, ast.Tuple)) and len(val.elts) == 1 and is_payloadish(_tag_get(u.tags, q.dotted(val.elts[0]) or "?")) and u.buf == "untouched":
+                        u = u._replace(buf="new")  # list-of-chunks representation
+                    elif is_payloadish(tag) and u.buf == "untouched":
+                        u = u._replace(buf="new")  # the payload object itself (bytes) as first chunk
                     else:
                         u = u._replace(buf="bad")
                 elif t == SOP:
@@ -519,3 +581,66 @@ def run_message(fi, consts, opcode: int, assume=None):
         raise AnalysisError("%s: expected (opcode, data) parameters" % fi.qualname)
     init = MsgState(((ps[1], "data"),), False, False, (), (), ())
     return explore_consts(fi.cfg, consts, init_env={ps[0]: opcode}, assume=assume, uinit=init, utransfer=msg_transfer(ps[1]))
+
+
+# ---------------------------------------------------------------------------
+# representation of a buffer field (units: does len() count bytes or chunks?)
+
+
+def field_kind(repo: Repo, relpath: str, clsname: str, path: str) -> Tuple[str, List[str]]:
+    """Resolve how ``path`` (e.g. ``self._fragmented_message_buffer``) is represented, through
+    every assignment and mutating call on it in the methods of ``clsname``:
+    'bytes' (bytes/bytearray: len() counts bytes), 'chunks' (list/tuple/deque of byte strings:
+    len() counts elements) or 'unknown'.  Returns (kind, evidence strings)."""
+    kinds = set()
+    ev: List[str] = []
+    for fi in repo.methods(relpath, clsname):
+        for n in q.walk_body(fi.node):
+            vals = []
+            if isinstance(n, ast.Assign) and any(q.dotted(t) == path for t in n.targets):
+                vals.append(n.value)
+            elif isinstance(n, ast.AnnAssign) and q.dotted(n.target) == path and n.value is not None:
+                vals.append(n.value)
+            for v in vals:
+                if isinstance(v, ast.Constant) and v.value is None:
+                    continue
+                if isinstance(v, ast.Constant) and isinstance(v.value, bytes):
+                    kinds.add("bytes")
+                elif isinstance(v, ast.Call) and q.call_name(v) in ("bytearray", "bytes", "memoryview"):
+                    kinds.add("bytes")
+                elif isinstance(v, (ast.List, ast.Tuple, ast.ListComp)) or (isinstance(v, ast.Call) and q.call_name(v) in ("list", "tuple", "deque", "collections.deque")):
+                    kinds.add("chunks")
+                elif isinstance(v, ast.Name):
+                    kinds.add("bytes?")  # a bytes object received from the stream (decided by the caller's tags)
+                else:
+                    kinds.add("unknown")
+                ev.append("%s: %s" % (fi.qualname, q.unparse(n)[:80]))
+            if isinstance(n, ast.Call) and isinstance(n.func, ast.Attribute) and q.dotted(n.func.value) == path:
+                if n.func.attr in ("append", "appendleft", "insert", "pop", "popleft"):
+                    kinds.add("chunks")
+                    ev.append("%s: .%s()" % (fi.qualname, n.func.attr))
+                elif n.func.attr in ("extend",):
+                    ev.append("%s: .extend()" % fi.qualname)
+            if isinstance(n, ast.Call) and isinstance(n.func, ast.Attribute) and n.func.attr == "join" and n.args and q.dotted(n.args[0]) == path:
+                kinds.add("chunks")
+                ev.append("%s: join(%s)" % (fi.qualname, path))
+    kinds.discard("bytes?") if (kinds - {"bytes?"}) else None
+    if kinds == {"bytes"} or kinds == {"bytes?"}:
+        return "bytes", ev
+    if kinds == {"chunks"}:
+        return "chunks", ev
+    if not kinds:
+        return "unknown", ev
+    return "mixed" if kinds >= {"bytes", "chunks"} else "unknown", ev
+
+
+def buffer_model(kind: str, nbytes: int, nchunks: int = 2):
+    """A constant standing for a buffer holding ``nbytes`` bytes in the given representation."""
+    if kind == "bytes":
+        return bytes(nbytes)
+    if kind == "chunks":
+        if nbytes == 0:
+            return (b"",)
+        per = nbytes // nchunks
+        return tuple([bytes(per)] * (nchunks - 1) + [bytes(nbytes - per * (nchunks - 1))])
+    raise AnalysisError("no constant model for a buffer of kind %r" % kind)
